@@ -15,6 +15,11 @@ After `mode operator` (real operator): the lines of the C04 suite, plus
 ```
 oracle merged q=<q> task=<id> pre=<ids> ctxs=<hook's view> queue=<ids>      → true | false <why>
 ```
+```
+oracle webhook hook=<n> kind=<k> own=<b:t:g> ctxs=<hook's view> pre=<q:ids;…> queue=<q:ids;…> after=<q:ids;…>
+                                                                          → true | false <why>
+```
+(a hook run that is not the execution of a queue's head task: an admission / conversion request).
 `combine` answers come from the code-shaped model (`combineGo` / `combineTwin`); `oracle` evaluates
 the property (the `Spec` functions: takeWhile / dropWhile / `Spec.compact`) on the state before the
 last `combine` and on what the implementation returned. -/
@@ -168,6 +173,33 @@ def oracleMerged (st : St) (task : Nat) (pre : List Nat) (ctxs : List Ctx) (afte
       else if after != wantQ then (st', s!"false queue-after-merge want={showNats wantQ}")
       else (st', "true")
 
+/-- `q:id,id;q:-` → the ids in every queue of the set. -/
+def parseQIds (s : String) : Option (List (Nat × List Nat)) :=
+  if s == "-" || s == "" then some [] else
+    (s.splitOn ";").mapM fun part =>
+      match part.splitOn ":" with
+      | [n, ids] => do some (← n.toNat?, ← natList? ids)
+      | _ => none
+
+def showQIds (l : List (Nat × List Nat)) : String :=
+  if l.isEmpty then "-" else String.intercalate ";" (l.map fun p => s!"{p.1}:{showNats p.2}")
+
+/-- The property on one hook run that is NOT the execution of the head task of a queue (the
+operator answers an admission / conversion request out of band, with a task that is in no queue).
+Tasks leave a queue only by being merged into the executed head task of that queue, and a hook
+receives other tasks' contexts only in such a merge: here the hook receives exactly the contexts
+of its own request (`own`, as the hook configuration declares the binding) and every queue of the
+set holds the same tasks in the same places while the hook runs (`during`) and after it has
+finished (`after`) as before the request (`pre`) — whatever the queues hold. -/
+def oracleWebhook (own ctxs : List Ctx) (pre during after : List (Nat × List Nat)) : String :=
+  -- an admission / conversion context is rendered with its own type ("Validating" / "Mutating" /
+  -- "Conversion" = 9 on these lines), before grouping: no `groupName` even when the binding has a `group:`
+  let want := own.map fun c => { c with typ := 9, group := 0 }
+  if ctxs != want then s!"false webhook-run-received-other-contexts want={showCtxs want}"
+  else if during != pre then s!"false tasks-left-a-queue-though-its-head-was-not-merging-them want-queue={showQIds pre}"
+  else if after != pre then s!"false tasks-left-a-queue-though-its-head-was-not-merging-them want-after={showQIds pre}"
+  else "true"
+
 def parseOut (rest : List String) : Option Outcome :=
   match kv? "out" rest with
   | some "nil" => some .nil
@@ -186,6 +218,12 @@ def step (st : St) (toks : List String) : St × String :=
             (kv? "ctxs" rest).bind parseCtxs, (kv? "queue" rest).bind natList? with
       | some task, some pre, some ctxs, some after => oracleMerged st task pre ctxs after
       | _, _, _, _ => (st, "bad-op")
+    | "oracle" :: "webhook" :: rest =>
+      match (kv? "hook" rest).bind (·.toNat?), (kv? "own" rest).bind parseCtxs, (kv? "ctxs" rest).bind parseCtxs,
+            (kv? "pre" rest).bind parseQIds, (kv? "queue" rest).bind parseQIds, (kv? "after" rest).bind parseQIds with
+      | some hook, some own, some ctxs, some pre, some during, some after =>
+        (st, if hook == 0 then "bad-op" else oracleWebhook own ctxs pre during after)
+      | _, _, _, _, _, _ => (st, "bad-op")
     | _ =>
     -- whole-operator lines are answered by the retry model of C04 (which embeds `prepareRun`)
     let (op', ans) := Drv.C04.step st.op toks
